@@ -65,15 +65,10 @@ func postForm(req *protocol.Request, params param.Params, key string, defaultVal
 
 	mf, err := req.MultipartForm()
 	if err == nil && mf.Value != nil {
-		for k, v := range mf.Value {
-			if k == key && len(v) > 0 {
-				ret = v[0]
-			}
+		// (a part with an empty value is a key that is present, as "k=" is in PostArgs)
+		if v, ok := mf.Value[key]; ok && len(v) > 0 {
+			return v[0], true
 		}
-	}
-
-	if len(ret) != 0 {
-		return ret, true
 	}
 	if ret, exist = req.URI().QueryArgs().PeekExists(key); exist {
 		return
